@@ -16,7 +16,11 @@ RELATED = {'C01-m1':['C01','C17'],'C01-m2':['C01','C14'],'C02-m1':['C02','C01'],
  'C01-m5':['C01','C12','C14'],'C01-m6':['C01','C02'],'C02-m5':['C02','C12','C14'],'C02-m6':['C02','C01'],'C03-m5':['C03','C06','C05'],'C03-m6':['C03'],'C04-m5':['C04'],'C04-m6':['C04','C01'],
  'C05-m5':['C05','C06'],'C05-m6':['C05','C15'],'C06-m5':['C06','C15'],'C06-m6':['C06','C15'],'C07-m5':['C07'],'C07-m6':['C07','C20'],'C10-m5':['C10','C07'],'C10-m6':['C10'],
  'C11-m5':['C11'],'C11-m6':['C11'],'C12-m5':['C12','C01'],'C12-m6':['C12'],'C13-m5':['C13'],'C13-m6':['C13'],'C14-m5':['C14'],'C14-m6':['C14','C12'],'C15-m5':['C15'],'C15-m6':['C15','C06','C02'],
- 'C16-m5':['C16','C07'],'C16-m6':['C16','C07'],'C17-m5':['C17','C04'],'C17-m6':['C17'],'C18-m5':['C18'],'C18-m6':['C18'],'C19-m5':['C19'],'C19-m6':['C19'],'C20-m5':['C20'],'C20-m6':['C20','C11']}
+ 'C16-m5':['C16','C07'],'C16-m6':['C16','C07'],'C17-m5':['C17','C04'],'C17-m6':['C17'],'C18-m5':['C18'],'C18-m6':['C18'],'C19-m5':['C19'],'C19-m6':['C19'],'C20-m5':['C20'],'C20-m6':['C20','C11'],
+ 'C01-m7':['C01','C17'],'C01-m8':['C01','C02','C14'],'C02-m7':['C02','C12','C14'],'C02-m8':['C02','C01'],'C03-m7':['C03'],'C03-m8':['C03','C07'],'C04-m7':['C04'],'C04-m8':['C04','C01'],
+ 'C05-m7':['C05'],'C05-m8':['C05','C06'],'C06-m7':['C06','C05'],'C06-m8':['C06'],'C07-m7':['C07','C03','C06'],'C07-m8':['C07','C02'],'C10-m7':['C10','C11'],'C10-m8':['C10'],
+ 'C11-m7':['C11','C04'],'C11-m8':['C11'],'C12-m7':['C12'],'C12-m8':['C12','C14'],'C13-m7':['C13','C07'],'C13-m8':['C13'],'C14-m7':['C14','C12'],'C14-m8':['C14','C13'],'C15-m7':['C15','C06'],'C15-m8':['C15','C05'],
+ 'C16-m7':['C16'],'C16-m8':['C16','C07'],'C17-m7':['C17'],'C17-m8':['C17'],'C18-m7':['C18'],'C18-m8':['C18'],'C19-m7':['C19'],'C19-m8':['C19'],'C20-m7':['C20'],'C20-m8':['C20','C11']}
 def one(d):
     name=os.path.basename(d)
     meta=json.load(open(os.path.join(d,'meta.json')))
